@@ -5,6 +5,7 @@ import (
 	"go/constant"
 	"go/token"
 	"go/types"
+	"os"
 	"sort"
 	"strconv"
 	"strings"
@@ -1159,6 +1160,13 @@ func (g *FnGen) shouldInline(f *ssa.Function, name string) bool {
 			pkg.Build()
 		}
 		auto = isGeneratedFn(g.P.Prog, f)
+		if !auto && g.S.Contracts[name] == nil && os.Getenv("GOVC_NO_HELPER_INLINE") == "" {
+			// a hand-written helper of the repository that carries no contract (typically one a
+			// refactoring has just extracted): small, loop-free and non-recursive ones are read
+			// through, like generated accessors, so that extracting a helper does not hide from the
+			// caller what its own code did before
+			auto = true
+		}
 	}
 	if !auto {
 		return false
